@@ -23,6 +23,10 @@ CLAIMED['C03'] = dict(
    text='Machine-checked theorems about the try/except/finally around the body call of the wrappers regenerated from _contracts.py, for arbitrary class tables: ContractError and non-Exception BaseException propagate as the same object; an exception admitted by the raises contracts and by the reason contracts registered for its type propagates as the same object; otherwise it is replaced by the validator-built violation chained to the original; and RaisesValidator._validate admits exactly instances of declared classes (subclass-aware). Proven for sync, async and per generator step. Tied to the code by regeneration, by differential execution on random hierarchies/declarations/stackings, a monitor, and a three-way runtime / linter (both back-ends) / deal.cases comparison of admitted exception types.',
    design_ref='DESIGN.md 4.3', note=GENERIC_NOTE + ' The agreement of linter and deal.cases with the runtime is decided by exhaustive differential testing over builtin classes, not by a theorem (the linter model of CheckRaises is not generated yet).',
    technique='Coq proof over wrappers regenerated from source + differential correspondence + monitor')
+CLAIMED['C08'] = dict(
+   text='Machine-checked frame theorem (Coq) for the synchronous fragment in full generality: for every table of contracted plain functions (bodies and validators arbitrary user code, recursion and nesting of any depth, any registry and any shared or distinct has() patcher), whatever the outcome at every node, once the outermost call finished the switch, sys.stdout, sys.stderr, socket.socket and every patcher depth are what they were -- proved by induction on fuel and on the program, through the wrapper _run_sync and patch/unpatch as regenerated from the source on every run. Generators, coroutines, dispatch, tracing and the CLI helpers are covered by the correspondence check (random call trees with exceptions injected at validator / body / yield positions, abandoned and closed generators; model vs real deal) and by the snapshot monitor, not by the theorem.',
+   design_ref='DESIGN.md 4.8', note=GENERIC_NOTE + ' Partial: the theorem covers plain functions; generators / coroutines / dispatch / trace / memtest restoration is decided by differential testing and the monitor only.',
+   technique='Coq frame theorem over wrappers regenerated from source + differential correspondence + snapshot monitor')
 UNCLAIMED_REASON = 'not claimed yet: the Coq model and check for this property are still under construction in this round (no technique switch intended)'
 checks, na = [], []
 for p in props:
